@@ -644,9 +644,12 @@ def clone_cases(tier, seed):
                 priors.append("ramp")
             if size > 1 and (tier == "thorough" or size == 2):
                 priors.append("g0")
+            if size == 3:
+                priors.append("zero0")  # first state never selected (prior exactly 0) - added after seeded change C09-12
             for pr in priors:
                 out.append(emit({"kets": list(sub), "prior": pr, "reps": 1, "form": "col"}))
     out.append(emit({"kets": NAMED_ENSEMBLES["six"], "prior": "uniform", "reps": 1, "form": "col"}))
+    out.append(emit({"kets": NAMED_ENSEMBLES["six"], "prior": "zeromid", "reps": 1, "form": "col"}))
     out.append(emit({"kets": NAMED_ENSEMBLES["six"], "prior": "ramp", "reps": 1, "form": "col"}))
     # input forms: 1-D vectors, density matrices, real dtype (only real kets), priors as ndarray
     for name, ens in NAMED_ENSEMBLES.items():
@@ -679,7 +682,7 @@ def clone_cases(tier, seed):
 
 def clone_alphabets(tier, seed):
     kets = CLONE_KETS_QUICK + (CLONE_KETS_MORE if tier == "thorough" else [])
-    return {"kets": kets, "subset_sizes": [1, 2, 3, 4], "named": NAMED_ENSEMBLES, "priors": ["uniform", "ramp", "g0"], "reps": [1, 2],
+    return {"kets": kets, "subset_sizes": [1, 2, 3, 4], "named": NAMED_ENSEMBLES, "priors": ["uniform", "ramp", "g0", "zero0", "zeromid"], "reps": [1, 2],
             "forms": ["col (complex dtype column)", "colreal (float dtype column)", "vec1d", "vec1dreal (float dtype 1-D)", "dm (pure density matrix)",
                       "col_nd (priors as ndarray)"], "strategy": ["dual (False)", "primal (True)"]}
 
@@ -704,6 +707,10 @@ def _clone_prior(n, key):
         return np.ones(n) / n
     if key == "ramp":
         w = np.arange(n, 0, -1, dtype=float)
+        return w / w.sum()
+    if key in ("zero0", "zeromid"):
+        w = np.arange(1, n + 1, dtype=float)
+        w[0 if key == "zero0" else n // 2] = 0.0
         return w / w.sum()
     return rg.generic_dist(n, int(key[1:]))
 
